@@ -87,18 +87,16 @@ theorem validate_idem (dt : DType F) (hwf : dt.WF) (hgrid : GridExact dt) (r : P
     (hcanon : Canon r) : validate dt r none = .ok r ∧ validate dt r (some r) = .ok r :=
   conv_idem dt r hwf hgrid hin hcanon
 
-/-- what `validate` returns is in canonical form (given that `previous` is) -/
-theorem validate_canon (dt : DType F) (hwf : dt.WF) (v : PVal F) (prev : Option (PVal F))
-    (hprev : ∀ p, prev = some p → Canon p) (r : PVal F) (h : validate dt v prev = .ok r) : Canon r :=
-  conv_canon dt v prev r hwf hprev h
+/-- what `validate` returns is in canonical form, whatever `previous` is -/
+theorem validate_canon (dt : DType F) (hwf : dt.WF) (v : PVal F) (prev : Option (PVal F)) (r : PVal F)
+    (h : validate dt v prev = .ok r) : Canon r :=
+  conv_canon dt v prev r hwf h
 
 /-- "validating an already validated value returns it unchanged" -/
 theorem revalidate_unchanged (dt : DType F) (hwf : dt.WF) (hgrid : GridExact dt) (v : PVal F)
-    (prev : Option (PVal F)) (hprev : ∀ p, prev = some p → Shaped dt p ∧ Canon p) (r : PVal F)
+    (prev : Option (PVal F)) (hprev : ∀ p, prev = some p → Shaped dt p) (r : PVal F)
     (h : validate dt v prev = .ok r) : validate dt r none = .ok r ∧ validate dt r (some r) = .ok r :=
-  validate_idem dt hwf hgrid r
-    (validate_sound dt hwf v prev (fun p hp => (hprev p hp).1) r h)
-    (validate_canon dt hwf v prev (fun p hp => (hprev p hp).2) r h)
+  validate_idem dt hwf hgrid r (validate_sound dt hwf v prev hprev r h) (validate_canon dt hwf v prev r h)
 
 /-- the same statement without the grid hypothesis is not a consequence of the float laws (and is false
 for binary64 where `scale` is below the float spacing at the limits; the repaired `ScaledInteger.validate`
